@@ -17,21 +17,22 @@ from harness import tlc
 from harness.core import Check
 from harness.par import pmap
 
-CONC = {"p": ["alpha", "beta", "gamma", "delta", "epsilon"], "s": ["done.", "ends.", "stop.", "here.", "fine."], "a": ["`c d`", "[l m](u)", "`e f`", "[x y](z)", "`g h`"],
+CONC = {"p": ["alpha", "beta", "gamma", "|", "epsilon"], "s": ["done.", "ends.", "stop.", "here.", "fine."], "a": ["`c d`", "[l m](u)", "`e f`", "[x y](z)", "`g h`"],
         "h": ["-", "1.", "#", ">", "+"], "e": ["1\\.", "2\\)", "10\\.", "3\\.", "7\\)"], "t": ["{% t %}", "<!-- c -->", "{{ v }}", "{# n #}", "{% /t %}"]}
 CONTS = {"top": ("", ""), "bullet": ("- ", "  "), "quote": ("> ", "> ")}
 OPTS = [dict(width=88, semantic=False), dict(width=20, semantic=False), dict(width=20, semantic=True), dict(width=0, semantic=False), dict(width=12, semantic=True)]
 
 
-def conc(words, seps, cont, inner=False):
+def conc(words, seps, cont, inner=False, v=0):
+    """v shifts the representative chosen for every word (the rotation alone ties the spelling to the position)"""
     first, cp = CONTS[cont]
     if inner:
-        return conc(words, seps, cont).replace("`c d`", "`c  d`").replace("[l m]", "[l   m]").replace("`e f`", "`e  f`").replace("[x y]", "[x  y]").replace("`g h`", "`g   h`")
-    out = [first, CONC[words[0]][0]]
+        return conc(words, seps, cont, v=v).replace("`c d`", "`c  d`").replace("[l m]", "[l   m]").replace("`e f`", "`e  f`").replace("[x y]", "[x  y]").replace("`g h`", "`g   h`")
+    out = [first, CONC[words[0]][0 if v == 0 else (v + 1) % 3]]        # never "|" / "epsilon" first: a paragraph must start with a plain token
     for g, s in enumerate(seps):
         sep = {"s1": " ", "s2": "   " if g % 2 else "  ", "nl": "\n" + cp, "nli": "\n" + cp + "   ", "nll": "\n"}[s]
         out.append(sep)
-        out.append(CONC[words[g + 1]][(g + 1) % 5])
+        out.append(CONC[words[g + 1]][(g + 1 + v) % 5])
     return "".join(out) + "\n"
 
 
@@ -70,32 +71,34 @@ def run(tier: str) -> int:
     for w, s, c in lay:
         groups.setdefault((w, c), []).append(s)
     jobs, keys = [], []
-    for (w, c), ss in groups.items():
+    for gi, ((w, c), ss) in enumerate(groups.items()):
         canon = tuple("s1" for _ in range(len(w) - 1))
         if tier == "quick":
             ss = [s for k, s in enumerate(ss) if (k + chk.seed + len(w)) % 7 == 0 or s == canon]
-        for oi, o in enumerate(OPTS):
-            for s in ss:
-                jobs.append((conc(w, s[:len(w) - 1], c, inner=len(s) == len(w)), o))
-                keys.append((w, c, s, oi))
+        # two spellings of every word kind per paragraph (thorough: both; quick: alternating)
+        for v in ((0, 1) if tier == "thorough" else ((gi + chk.seed) % 2,)):
+            for oi, o in enumerate(OPTS):
+                for s in ss:
+                    jobs.append((conc(w, s[:len(w) - 1], c, inner=len(s) == len(w), v=v), o))
+                    keys.append((w, c, s, oi, v))
     outs = pmap(_fmt, jobs, chunksize=500)
     by = {k: o for k, o in zip(keys, outs)}
     traces, metas = [], {}
     tid = 0
-    for (w, c, s, oi), out in zip(keys, outs):
+    for (w, c, s, oi, v), out in zip(keys, outs):
         chk.evaluations += 1
         canon = tuple("s1" for _ in range(len(w) - 1))
         if out.startswith("EXC:"):
-            chk.violation("NoException", dict(src=conc(w, s[:len(w) - 1], c), opts=OPTS[oi], exc=out))
+            chk.violation("NoException", dict(src=conc(w, s[:len(w) - 1], c, v=v), opts=OPTS[oi], exc=out))
             continue
         if s == canon:
             continue
         tid += 1
-        ref = by[(w, c, canon, oi)]
+        ref = by[(w, c, canon, oi, v)]
         traces.append(dict(id=tid, words=list(w), sepsA=list(canon), sepsB=list(s[:len(w) - 1]), cont=c, same=(out == ref)))
-        metas[tid] = dict(kind="layout", words=list(w), layout=list(s), container=c, opts=OPTS[oi], src=conc(w, s[:len(w) - 1], c, inner=len(s) == len(w)), canonical_src=conc(w, canon, c),
-                          out=out, canonical_out=ref)
-        chk.nontriv((w, c, s, oi))
+        metas[tid] = dict(kind="layout", words=list(w), layout=list(s), container=c, opts=OPTS[oi], src=conc(w, s[:len(w) - 1], c, inner=len(s) == len(w), v=v),
+                          canonical_src=conc(w, canon, c, v=v), out=out, canonical_out=ref)
+        chk.nontriv((w, c, s, oi, v))
     hjobs, hkeys = [], []
     for (w, c) in groups:
         canon = tuple("s1" for _ in range(len(w) - 1))
@@ -153,7 +156,15 @@ def finding_for(m) -> str | None:
     if m["kind"] == "layout":
         # D33: tag paragraph + escaped numeral directly after a line break of the layout
         lay = m["layout"]
-        if "t" in m["words"] and any(lay[g] in ("nl", "nli", "nll") and m["words"][g + 1] == "e" for g in range(len(m["words"]) - 1)):
+        # D33: the block-content heuristic of the tag-newline handling is switched on only by a tag that starts or ends a SOURCE line,
+        # and then keeps the break before a source line that starts like an ordered item ('10. x', also written '10\\. x') or a table row
+        first, cp = CONTS[m["container"]]
+        body = [l[len(first):] if j == 0 else l[len(cp):] if l.startswith(cp) else l for j, l in enumerate(m["src"].rstrip("\n").split("\n"))]
+        body = [b.strip() for b in body]
+        tagre = r"(\{%.*?%\}|\{#.*?#\}|\{\{.*?\}\}|<!--.*?-->)"
+        tag_at_edge = any(re.match(tagre, b) or re.search(tagre + "$", b) for b in body)
+        blockish = any(re.match(r"(\d+\\?[.)]|\|)(\s|$)", b) for b in body[1:])
+        if tag_at_edge and blockish:
             return "D33"
         return None
     if m["kind"] != "history":
